@@ -648,6 +648,14 @@ def check_indep(case, ctx):
 def reest_case(draw, tier):
     cfg = draw(flow_cfg(tier, n_rep=(1, 3)))
     cfg["n_rep"] = pick(draw, [2, 3, 1, 2])
+    # two cases of ONE estimator that differ in the parametrisation only, named alike (case names are free text and
+    # `type(estimator).__name__` is a common choice): every case must be re-estimated with ITS parametrisation
+    if draw(st.integers(0, 2)) == 0:
+        first = dict(cfg["est_cases"][0])
+        second = dict(first)
+        second["para"] = not first["para"]
+        cfg["est_cases"] = [first, second]
+        cfg["tied_names"] = True
     return {"cfg": cfg, "pick_rep": draw(st.integers(0, 2))}
 
 
@@ -674,6 +682,8 @@ def check_reest(case, ctx):
 
     cfg = case["cfg"]
     label_cfg(ctx, cfg)
+    if cfg.get("tied_names"):
+        ctx.label("case-names:tied")
     n_cases = len(cfg["est_cases"])
     with F.scratch_dir() as root, F.scratch_dir() as root2:
         res, ts = run_in_process(cfg, ctx, root_dir=root)
